@@ -122,7 +122,7 @@ def step (s : Sess) (c : Cmd) : Sess × String × String :=
     -- as `absurd=`, not as a scheduled refusal): the buffer is the 2nd allocator call
     let absurd := cap * 8 > 2 ^ 40 ∧ c.sched.isEmpty
     let m := if absurd then { m with sched := [false, true] } else m
-    let (st, r, m) := Arr.new cap (growF f) (exGeF f) m
+    let (st, r, m) := Arr.new cap (growF f) (exGeF f) m (if isNew then .conf else .libc)
     let m := if absurd then { m with nrefused := 0 } else m
     let sst : Stat := if cap = 0 ∨ exGeF f (Gen.CC_MAX_ELEMENTS / cap) ∨ cap > Gen.CC_MAX_ELEMENTS / 8 then .errInvalidCapacity else if refused then .errAlloc else .ok
     let s' : Sess := { slots := [r, none, none, none], sslots := [if sst = .ok then some [] else none, none, none, none], mem := m }
